@@ -95,6 +95,32 @@ impl<'a> TokenStream<'a> {
     }
 }
 
+/// The position of the text between `start_offset` and `end_offset`.
+///
+/// A token can span several lines (string literals may contain
+/// newlines), so the end line and end column are computed from the
+/// end offset rather than from the start.
+fn position_between(
+    lp: &LinePositions,
+    vfs_path: &VfsPathBuf,
+    start_offset: usize,
+    end_offset: usize,
+) -> Position {
+    let (line_number, column) = lp.from_offset(start_offset);
+    let (end_line_number, end_column) = lp.from_offset(end_offset);
+
+    Position {
+        start_offset,
+        end_offset,
+        line_number: line_number.as_usize(),
+        end_line_number: end_line_number.as_usize(),
+        column,
+        end_column,
+        path: Rc::clone(&vfs_path.path),
+        vfs_path: vfs_path.clone(),
+    }
+}
+
 pub(crate) fn lex_between<'a>(
     vfs_path: &VfsPathBuf,
     s: &'a str,
@@ -122,35 +148,16 @@ pub(crate) fn lex_between<'a>(
 
         // Skip over comments.
         if s.starts_with("//") {
-            let (line_number, column) = lp.from_offset(offset);
             if let Some(i) = s.find('\n') {
                 preceding_comments.push((
-                    Position {
-                        start_offset: offset,
-                        end_offset: offset + i,
-                        line_number: line_number.as_usize(),
-                        end_line_number: line_number.as_usize(),
-                        column,
-                        end_column: column + i,
-                        path: Rc::clone(&vfs_path.path),
-                        vfs_path: vfs_path.clone(),
-                    },
+                    position_between(&lp, &vfs_path, offset, offset + i),
                     &s[0..i + 1],
                 ));
                 offset += i + 1;
             } else {
                 // Comment at EOF without a trailing newline.
                 preceding_comments.push((
-                    Position {
-                        start_offset: offset,
-                        end_offset: offset + s.len(),
-                        line_number: line_number.as_usize(),
-                        end_line_number: line_number.as_usize(),
-                        column,
-                        end_column: column + s.len(),
-                        path: Rc::clone(&vfs_path.path),
-                        vfs_path: vfs_path.clone(),
-                    },
+                    position_between(&lp, &vfs_path, offset, offset + s.len()),
                     s,
                 ));
                 offset += s.len();
@@ -171,19 +178,8 @@ pub(crate) fn lex_between<'a>(
         // Two character binary operators.
         for token_str in TWO_CHAR_OPERATORS.iter().chain(TWO_CHAR_TOKENS.iter()) {
             if s.starts_with(token_str) {
-                let (line_number, column) = lp.from_offset(offset);
-
                 tokens.push(Token {
-                    position: Position {
-                        start_offset: offset,
-                        end_offset: offset + token_str.len(),
-                        line_number: line_number.as_usize(),
-                        end_line_number: line_number.as_usize(),
-                        column,
-                        end_column: column + token_str.len(),
-                        path: Rc::clone(&vfs_path.path),
-                        vfs_path: vfs_path.clone(),
-                    },
+                    position: position_between(&lp, &vfs_path, offset, offset + token_str.len()),
                     text: &s[0..token_str.len()],
                     preceding_comments,
                 });
@@ -197,19 +193,8 @@ pub(crate) fn lex_between<'a>(
         // Match floats before integers, so 1.5 is treated as a float,
         // not integer 1 followed by .5.
         if let Some(float_match) = FLOAT_RE.find(s) {
-            let (line_number, column) = lp.from_offset(offset);
-
             tokens.push(Token {
-                position: Position {
-                    start_offset: offset,
-                    end_offset: offset + float_match.end(),
-                    line_number: line_number.as_usize(),
-                    end_line_number: line_number.as_usize(),
-                    column,
-                    end_column: column + float_match.end(),
-                    path: Rc::clone(&vfs_path.path),
-                    vfs_path: vfs_path.clone(),
-                },
+                position: position_between(&lp, &vfs_path, offset, offset + float_match.end()),
                 text: float_match.as_str(),
                 preceding_comments,
             });
@@ -222,19 +207,8 @@ pub(crate) fn lex_between<'a>(
         // Match integers before binary operators, so -1 is treated as
         // a single integer literal, not the token - followed by 1.
         if let Some(integer_match) = INTEGER_RE.find(s) {
-            let (line_number, column) = lp.from_offset(offset);
-
             tokens.push(Token {
-                position: Position {
-                    start_offset: offset,
-                    end_offset: offset + integer_match.end(),
-                    line_number: line_number.as_usize(),
-                    end_line_number: line_number.as_usize(),
-                    column,
-                    end_column: column + integer_match.end(),
-                    path: Rc::clone(&vfs_path.path),
-                    vfs_path: vfs_path.clone(),
-                },
+                position: position_between(&lp, &vfs_path, offset, offset + integer_match.end()),
                 text: integer_match.as_str(),
                 preceding_comments,
             });
@@ -247,19 +221,8 @@ pub(crate) fn lex_between<'a>(
         // One character operators and lexemes.
         for token_char in ONE_CHAR_OPERATORS.iter().chain(ONE_CHAR_TOKENS.iter()) {
             if s.starts_with(*token_char) {
-                let (line_number, column) = lp.from_offset(offset);
-
                 tokens.push(Token {
-                    position: Position {
-                        start_offset: offset,
-                        end_offset: offset + 1,
-                        line_number: line_number.as_usize(),
-                        end_line_number: line_number.as_usize(),
-                        column,
-                        end_column: column + 1,
-                        path: Rc::clone(&vfs_path.path),
-                        vfs_path: vfs_path.clone(),
-                    },
+                    position: position_between(&lp, &vfs_path, offset, offset + 1),
                     text: &s[0..1],
                     preceding_comments,
                 });
@@ -271,20 +234,10 @@ pub(crate) fn lex_between<'a>(
         }
         if let Some(string_match) = STRING_RE.find(s) {
             let text = string_match.as_str();
-            let (line_number, column) = lp.from_offset(offset);
             if text.ends_with('"') {
                 // Well-formed string literal.
                 tokens.push(Token {
-                    position: Position {
-                        start_offset: offset,
-                        end_offset: offset + string_match.end(),
-                        line_number: line_number.as_usize(),
-                        end_line_number: line_number.as_usize(),
-                        column,
-                        end_column: column + string_match.end(),
-                        path: Rc::clone(&vfs_path.path),
-                        vfs_path: vfs_path.clone(),
-                    },
+                    position: position_between(&lp, &vfs_path, offset, offset + string_match.end()),
                     text,
                     preceding_comments,
                 });
@@ -303,16 +256,7 @@ pub(crate) fn lex_between<'a>(
                 };
 
                 errors.push(ParseError::Invalid {
-                    position: Position {
-                        start_offset: offset,
-                        end_offset: offset + text_content.len(),
-                        line_number: line_number.as_usize(),
-                        end_line_number: line_number.as_usize(),
-                        column,
-                        end_column: column + text_content.len(),
-                        path: Rc::clone(&vfs_path.path),
-                        vfs_path: vfs_path.clone(),
-                    },
+                    position: position_between(&lp, &vfs_path, offset, offset + text_content.len()),
                     message: ErrorMessage(vec![msgtext!("Unclosed string literal.")]),
                     // TODO: include previous string position, which
                     // was probably not closed correctly.
@@ -320,16 +264,7 @@ pub(crate) fn lex_between<'a>(
                 });
 
                 tokens.push(Token {
-                    position: Position {
-                        start_offset: offset,
-                        end_offset: offset + text_content.len(),
-                        line_number: line_number.as_usize(),
-                        end_line_number: line_number.as_usize(),
-                        column,
-                        end_column: column + text_content.len(),
-                        path: Rc::clone(&vfs_path.path),
-                        vfs_path: vfs_path.clone(),
-                    },
+                    position: position_between(&lp, &vfs_path, offset, offset + text_content.len()),
                     text: text_content,
                     preceding_comments,
                 });
@@ -339,19 +274,8 @@ pub(crate) fn lex_between<'a>(
 
             preceding_comments = vec![];
         } else if let Some(variable_match) = SYMBOL_RE.find(s) {
-            let (line_number, column) = lp.from_offset(offset);
-
             tokens.push(Token {
-                position: Position {
-                    start_offset: offset,
-                    end_offset: offset + variable_match.end(),
-                    line_number: line_number.as_usize(),
-                    end_line_number: line_number.as_usize(),
-                    column,
-                    end_column: column + variable_match.end(),
-                    path: Rc::clone(&vfs_path.path),
-                    vfs_path: vfs_path.clone(),
-                },
+                position: position_between(&lp, &vfs_path, offset, offset + variable_match.end()),
                 text: variable_match.as_str(),
                 preceding_comments,
             });
@@ -359,21 +283,11 @@ pub(crate) fn lex_between<'a>(
 
             offset += variable_match.end();
         } else {
-            let (line_number, column) = lp.from_offset(offset);
             // The unrecognized character may be more than one byte.
             let char_len = first_char.len_utf8();
 
             errors.push(ParseError::Invalid {
-                position: Position {
-                    start_offset: offset,
-                    end_offset: offset + char_len,
-                    line_number: line_number.as_usize(),
-                    end_line_number: line_number.as_usize(),
-                    column,
-                    end_column: column + char_len,
-                    path: Rc::clone(&vfs_path.path),
-                    vfs_path: vfs_path.clone(),
-                },
+                position: position_between(&lp, &vfs_path, offset, offset + char_len),
                 message: ErrorMessage(vec![
                     msgtext!("Unrecognized syntax "),
                     msgcode!("{}", &s[0..char_len]),
@@ -671,6 +585,24 @@ mod tests {
         assert_eq!(errors.len(), 1);
         assert_eq!(errors[0].position().start_offset, 7);
         assert_eq!(errors[0].position().end_offset, 9);
+    }
+
+    #[test]
+    fn test_lex_multiline_string_end_position() {
+        let vfs_path = VfsPathBuf {
+            path: Rc::new(PathBuf::from("__test.gdn")),
+            id: VfsId(1),
+        };
+
+        let tokens = lex(&vfs_path, "\"a\nbc\" x").0;
+        let position = tokens.peek().unwrap().position;
+        assert_eq!(position.start_offset, 0);
+        assert_eq!(position.end_offset, 6);
+        assert_eq!(position.line_number, 0);
+        assert_eq!(position.column, 0);
+        // The token ends on the second line, after `bc"`.
+        assert_eq!(position.end_line_number, 1);
+        assert_eq!(position.end_column, 3);
     }
 
     #[test]
